@@ -133,7 +133,9 @@ def run_scenario(impl: S.Impl, spec):
     h = spec["h"]
     t0 = T0 + spec["t0_off"]
     ni, no = spec["counters"]
-    a = S.AbsConn(state=17, role=spec["role"], was_active=True, next_in=ni, next_out=no, last_time=t0, hb=h, sock=True,
+    # "last0": the connection has never stamped a receive time (_message_last_time = 0.0, which is falsy)
+    a = S.AbsConn(state=17, role=spec["role"], was_active=True, next_in=ni, next_out=no,
+                  last_time=0 if spec.get("last0") else t0, hb=h, sock=True,
                   sender="S" if spec["role"] == 1 else "A", target="T" if spec["role"] == 1 else "I")
     a = S.with_journal(a, spec["journal"])
     impl.load(a)
@@ -340,6 +342,7 @@ def judge(spec, line):
     last_arrival = t0      # time of the last valid inbound frame (the scripted peer only sends valid ones)
     probe_due_from = t0    # start of the current "nothing received, none outstanding" period
     outstanding = None     # (id:str, t_sent) of the TestRequest not yet echoed
+    attempted = False      # a probe was due but send_test_req() raised
     up = True
     for k, s in enumerate(line):
         t, eff = s["t"], s["eff"]
@@ -357,9 +360,13 @@ def judge(spec, line):
                 yield ("C12-second-testrequest", "a TestRequest was sent while one is outstanding", {"step": k, "t": t - t0})
             # sentence 1: TestRequest by a + h + delta, delta = distance to the next tick: the first tick at or after
             # a + h (which comes no later than a + h + delta) must find the TestRequest sent or send it
-            if not outstanding and not treqs and t >= probe_due_from + H:
+            if not outstanding and not treqs and not attempted and not any(e.startswith("R=") for e in eff) \
+                    and t >= probe_due_from + H:
                 yield ("C12-testrequest-late", f"nothing received since {probe_due_from - t0} ms, none outstanding, "
                        f"tick at {t - t0} ms >= h later and still no TestRequest", {"step": k})
+            raised = any(e.startswith("R=") for e in eff)
+            if raised and not treqs and not outstanding:
+                attempted = True   # send_test_req() raised (journal / encoding): the id is recorded, no frame went out
             if treqs:
                 tid = dict(treqs[0][1]).get(112)
                 if tid != str(t // 1000):
@@ -370,8 +377,10 @@ def judge(spec, line):
             if disconnected:
                 # liveness by echo: a watchdog disconnect needs a TestRequest unanswered for more than 2h - 1 s
                 if outstanding is None:
-                    yield ("C12-disconnect-nothing-outstanding", "the watchdog disconnected although every TestRequest "
-                           "had been echoed", {"step": k, "t": t - t0})
+                    # legitimate only as "nothing valid for 2h" (e.g. the TestRequest could not be sent)
+                    if t - last_arrival <= 2 * H or not attempted:
+                        yield ("C12-disconnect-nothing-outstanding", "the watchdog disconnected although no TestRequest "
+                               "was unanswered", {"step": k, "t": t - t0})
                 elif t - outstanding[1] <= 2 * H - 1000:
                     yield ("C12-disconnect-before-deadline", "the watchdog disconnected although the TestRequest was sent "
                            f"only {t - outstanding[1]} ms ago (<= 2h - 1 s)", {"step": k})
@@ -426,6 +435,7 @@ def judge(spec, line):
                 yield ("C12-valid-frame-disconnects", "a valid in-sequence frame caused a disconnect", {"step": k})
             if up and s["a_post"].state > 3:
                 last_arrival = t
+                attempted = False if s["a_post"].test_req_id is None else attempted
                 if not outstanding:
                     probe_due_from = t
                 if s["a_post"].last_time != t:
